@@ -247,3 +247,62 @@ def backward_slice_locals(f, seeds, limit=200):
                     if p:
                         work.append(p["l"])
     return seen
+
+
+def tls_const_false(ctx):
+    """CONST-RET chain: Stream::secure -> RefinedTcpStream::secure -> ClientConnection.secure field
+    -> ClientConnection::secure is constantly `false` in this configuration (no ssl feature)."""
+    facts = ctx.facts
+    if hasattr(facts, "_tls_false"):
+        return facts._tls_false
+    ok = True
+    why = []
+    try:
+        ss = roles.inherent(facts, STREAM, "secure")
+        vals = set()
+        for bb, i, s in ss.assigns():
+            if s["lhs"] == {"l": 0, "p": []}:
+                vals.add(op_const(s["rhs"]["op"]) if s["rhs"]["rv"] == "use" else "?")
+        if vals != {False}:
+            ok = False; why.append("Stream::secure returns %s" % vals)
+        rs = roles.inherent(facts, RTS, "secure")
+        o = rs.origin_place({"l": 0, "p": []})
+        if not (o[0] == "call" and o[1] == ss.id):
+            ok = False; why.append("RefinedTcpStream::secure is not Stream::secure")
+        ccnew = roles.inherent(facts, CC, "new")
+        writes = facts.field_writes(CC, "secure")
+        for f, bb, kind, x in writes:
+            if f.id != ccnew.id or kind != "construct":
+                ok = False; why.append("ClientConnection.secure written in %s" % f.id)
+            else:
+                r = x["rhs"]
+                idx = r["fields"].index("secure")
+                oo = f.origin(r["ops"][idx])
+                if not (oo[0] == "call" and oo[1] == rs.id):
+                    ok = False; why.append("ClientConnection.secure not from RefinedTcpStream::secure")
+        if not writes:
+            ok = False; why.append("no write of ClientConnection.secure")
+        cs = roles.inherent(facts, CC, "secure")
+        o = cs.origin_place({"l": 0, "p": []})
+        if not (o[0] == "field" and o[2] == "secure"):
+            ok = False; why.append("ClientConnection::secure does not return the field")
+    except CheckerError as e:
+        ok = False; why.append(str(e))
+    facts._tls_false = ok
+    facts._tls_why = why
+    return ok
+
+
+def tls_branch_dead(ctx, f, bb):
+    """is block bb of f only reachable through the `true` edge of a test of ClientConnection::secure()
+    (which is constantly false here)?"""
+    if not tls_const_false(ctx):
+        return False
+    cc_secure = roles.inherent(ctx.facts, CC, "secure")
+    for b2, t in f.calls():
+        if call_is(t, cc_secure.id) and t.get("target") is not None:
+            bs = bool_switch(f, t["target"])
+            if bs and op_local(bs[0]) == t["dest"]["l"]:
+                if f.dominates(bs[1], bb, unwind=False) and bs[1] != bs[2]:
+                    return True
+    return False
